@@ -13,11 +13,23 @@ def impl_bound(n):
     return 16 * n + 256
 
 
-WALL_SECONDS = 30          # one decoder call: far beyond anything a linear decoder needs on inputs of a few hundred KiB
+WALL_SECONDS = 20          # one decoder call: far beyond anything a linear decoder needs on inputs of a few hundred KiB
 WATCHDOG_SECONDS = 150     # between two recorded events of a driver
 
 
+class GiveUp(BudgetExceeded):
+    """the library did not return within the wall-clock guard MAX_HANGS times in this driver process: the rest of the workload
+    would only wait the guard out again and again; the driver stops and reports (a DriverAbort event)"""
+
+
+MAX_HANGS = 3
+HANGS = [0]
+
+
 def _on_alarm(signum, frame):
+    HANGS[0] += 1
+    if HANGS[0] > MAX_HANGS:
+        raise GiveUp('the library did not return %d times' % HANGS[0])
     raise BudgetExceeded('wall clock')
 
 
@@ -96,6 +108,8 @@ def with_budget(fn, data, measure_memory=False):
     try:
         with sc:
             res = fn(data)
+    except GiveUp:
+        raise
     except BudgetExceeded as e:
         exc = e
     except MemoryError as e:
